@@ -5,8 +5,9 @@
 import Driver.Common
 import GivaroModel.Model.Poly
 import GivaroModel.Spec.PolySpec
--- @driver-mode poly Driver.polyLine
-namespace Driver
+-- @driver-mode poly Driver.Poly.polyLine
+namespace Driver.Poly
+open Driver
 open Givaro.Spec.Poly
 
 /-- the operations of a coefficient field + the wire format of its elements -/
@@ -337,4 +338,4 @@ def polyLine (line : String) : String :=
         else "BAD field | " ++ line
     | _ => "BAD args | " ++ line
 
-end Driver
+end Driver.Poly
